@@ -425,12 +425,19 @@ def oracle_charpoly(ctx):
 
 
 def search_charpoly(ctx):
-    """Deeper random search (used after a proof/tie break when the oracle found nothing)."""
-    count = ctx.n(160, 3000)
-    Ns = [3, 3, 4] if ctx.quick else [3, 4]
-    jobs = make_cases(ctx.rng, count, Ns, scales_per_case=2, full_scales=not ctx.quick)
-    results = run_jobs(jobs, min(16, os.cpu_count() or 1))
-    out = []
-    for r in results:
-        out += [f for f in r["failures"] if not f.get("crash")]
-    return out[:10]
+    """Deeper random search (used after a proof/tie break when the oracle found nothing): higher orders
+    (N = 3, 4), in chunks, stopping at the first chunk that contains a failing input."""
+    total = ctx.n(96, 3000)
+    chunk = ctx.n(32, 500)
+    Ns = [3, 4, 4] if ctx.quick else [3, 4]
+    procs = min(16, os.cpu_count() or 1)
+    done = 0
+    while done < total:
+        jobs = make_cases(ctx.rng, min(chunk, total - done), Ns, scales_per_case=2, full_scales=not ctx.quick)
+        done += len(jobs)
+        out = []
+        for r in run_jobs(jobs, procs):
+            out += [f for f in r["failures"] if not f.get("crash")]
+        if out:
+            return out[:10]
+    return []
